@@ -82,6 +82,55 @@ def run(src, tier, seed):
             res.ok(r, '%s: fallback tail re-canonicalises' % f['name'])
         else:
             res.bad(r, 'tail-not-canonical:%s' % f['name'].replace('opensmt::', ''), fx.loc(f, labs[0].get('ln')), '%s: the arbitrary-precision fallback does not end in try_fit_word(): a value that fits a word stays in GMP form and equal values get different representations / hashes' % f['name'])
+    # ---- representation state: marking one representation valid either invalidates the other or follows a derivation from it
+    r = res.rule('representation-marks-exclusive', 'a FastRational carries a machine-word and a GMP representation with validity flags; a setter that adds a validity flag without clearing '
+                 'the other (state |= ...) is called only by the exclusive wrapper that also clears the other flag, or after the marked representation was computed from the other '
+                 'representation of the same object (try_fit_word, ensure_mpq_valid); everywhere else a stale second representation would stay valid', floor=3)
+    fr = 'opensmt::FastRational'
+    adders = {}
+    for f in fx.F.values():
+        if f.get('class') == fr and f.get('body'):
+            ors = [n for n in fwalk(f) if (n.get('k') == 'bin' and n.get('op') == '|=' and (path_of(n['l']) or '').endswith('state')) or
+                   (n.get('k') == 'call' and n.get('op') == '|=' and n.get('a') and (path_of(n['a'][0]) or '').endswith('state'))]
+            if ors and not any(n.get('k') == 'call' and n.get('op') != '|=' for n in fwalk(f) if not n.get('as')):
+                flag = ' '.join(x.get('n', '') for n in ors for x in walk(n) if x.get('k') == 'ref')
+                if 'WORD_VALID' in flag:
+                    adders[f['id']] = ('word', f['name'])
+                elif 'MPQ_ALLOCATED_AND_VALID' in flag:
+                    adders[f['id']] = ('mpq', f['name'])
+    if len(adders) < 2:
+        raise AnalysisBroken('FastRational: the flag-adding state setters (setWordPartValid, setMpqAllocatedAndValid) were not found')
+    other = {'word': 'mpq', 'mpq': 'word'}
+    fields = {'word': ('num', 'den'), 'mpq': ('mpq',)}
+    for f in fx.F.values():
+        if not f.get('body'):
+            continue
+        for n in fwalk(f):
+            if n.get('k') != 'call' or n.get('as'):
+                continue
+            hit = [adders[t] for t in fx.targets(n) if t in adders]
+            if not hit:
+                continue
+            which, sname = hit[0]
+            obj = recv_path(n) or 'this'
+            # (a) exclusive wrapper: the other validity flag is cleared in the same function on the same object
+            clears = any(x.get('k') == 'call' and not x.get('as') and (recv_path(x) or 'this') == obj and mname(x) in ('setMpqPartInvalid', 'setWordPartInvalid') for x in fwalk(f))
+            # (b) derivation: the marked representation of `obj` is written from an expression that reads the other representation of `obj`
+            def mentions(e, flds):
+                return any(x.get('k') == 'mem' and x.get('n') in flds and (path_of(x.get('b')) or 'this') == obj for x in walk(e))
+            derived = False
+            for x in fwalk(f):
+                a = as_assign(x)
+                if a and (path_of(a[0]) or '').rsplit('.', 1)[-1] in fields[which] and ((path_of(a[0]) or '').rsplit('.', 1)[0] if '.' in (path_of(a[0]) or '') else 'this') == obj and mentions(a[1], fields[other[which]]):
+                    derived = True
+                if x.get('k') == 'call' and callee(x).startswith(('mpz_set', '__gmpz_set', 'mpq_set', '__gmpq_set')) and x.get('a') and mentions(x['a'][0], fields[which]) and any(mentions(y, fields[other[which]]) for y in x['a'][1:]):
+                    derived = True
+            if clears or derived:
+                res.ok(r, '%s calls %s on %s (%s)' % (f['name'].replace('opensmt::', ''), sname.split('::')[-1], obj, 'other flag cleared' if clears else 'derived from the other representation'))
+            else:
+                res.bad(r, 'stale-representation:%s' % f['name'].replace('opensmt::', '').split('(')[0], fx.loc(f, n.get('ln')), '%s marks the %s representation of `%s` valid with %s, which leaves the validity '
+                        'flag of the %s representation as it was, and neither clears that flag nor computed the marked part from it: if the object held a %s value before, that stale value stays '
+                        'valid and is what GMP-side arithmetic and comparisons read' % (f['name'], which, obj, sname.split('::')[-1], other[which], other[which]))
     # ---- gcd / lcm agreement of paths
     r = res.rule('gcd-lcm-sign', 'the machine-word paths of gcd(FastRational, FastRational) and lcm take absolute values, like mpz_gcd / mpz_lcm', floor=2)
     for nm in ('opensmt::gcd', 'opensmt::lcm'):
